@@ -593,6 +593,8 @@ def _eval_exact(t, env, prims):
         a, b = eval_exact(t[2], env, prims), eval_exact(t[3], env, prims)
         import operator as _op
         f_ = {"Eq": _op.eq, "NotEq": _op.ne, "Lt": _op.lt, "LtE": _op.le, "Gt": _op.gt, "GtE": _op.ge}.get(t[1])
+        if t[1] in ("Is", "IsNot") and (a is None or b is None):
+            return (a is b) if t[1] == "Is" else (a is not b)
         if f_ is None:
             raise NotEvaluable("comparison %s" % t[1])
         try:
